@@ -315,13 +315,23 @@ def t_opt_kill(facts, res, tier):
                 res.inst(key, True, None)
                 if not covers(regvar[r], "always"):
                     res.fail(key, where, "%s transfers control but the known value of %s is kept" % (mn, r))
-        # flags
-        nz_not_a = d["nz"] and d["kind"] in ("rmw", "incdec", "compare") or mn in ("LDX", "LDY")
-        if nz_not_a:
+        # flags: whatever writes N/Z (or calls code that may) leaves the optimiser's flag knowledge either cleared or naming
+        # the register whose value the new N/Z describe - never what it said before
+        if d["nz"] or d["kind"] in ("call",) or mn in ("PLP", "RTI"):
             key = "T-OPT-KILL:%s:flags" % mn
             res.inst(key, True, None)
             if not covers(flagsvar, "always"):
-                res.fail(key, where, "%s sets N/Z from something other than A but the optimizer's `%s` knowledge is left unchanged" % (mn, flagsvar))
+                res.fail(key, where, "%s sets N/Z but the optimizer's `%s` knowledge is left as it was: a later load of the register it names is then deleted although the flags no longer describe that register (`X = 0; csleep(7); X = 0; if (X)` branches on what PLA pulled)" % (mn, flagsvar))
+            NZ_OF = {"LDA": "A", "TXA": "A", "TYA": "A", "PLA": "A", "ADC": "A", "SBC": "A", "AND": "A", "ORA": "A", "EOR": "A",
+                     "LDX": "X", "TAX": "X", "INX": "X", "DEX": "X", "TSX": "X", "LDY": "Y", "TAY": "Y", "INY": "Y", "DEY": "Y"}
+            if arm is not None:
+                for n2 in walk(arm["body"]):
+                    if n2.get("k") == "assign" and expr_text(n2["l"]) == flagsvar:
+                        rt = expr_text(n2["r"]).replace(" ", "")
+                        m3 = re.match(r"^FlagsState::(\w+)$", rt)
+                        val = m3.group(1) if m3 else rt
+                        if val != "Unknown" and val != NZ_OF.get(mn):
+                            res.fail("T-OPT-KILL:%s:flags-value" % mn, facts.where(fn, n2), "after %s the optimizer believes the flags describe %s; they describe %s" % (mn, val, NZ_OF.get(mn, "neither A, X nor Y")))
     res.exhaustive = True
 
 
